@@ -27,6 +27,7 @@ import scipp.constants  # noqa: F401
 
 import scippneutron as scn
 from scippneutron.conversion import tof as K
+from scippneutron.conversion.graph import tof as G
 
 from mc import modstate
 from ref import hp
@@ -614,6 +615,183 @@ def _run_history(case, rec):
 
 
 # ---------------------------------------------------------------------------------------
+# representation family: one alphabet of arrival times (flights, times before / at / just after t0 of every pixel, 0,
+# negative, tiny) handed to every public conversion route in every representation of the times: kernel call, the
+# inelastic graphs through transform_coords, convert() on dense data with tof as point and as bin-edge coordinate, on
+# binned data whose events carry the times, on binned data with the times as dense bin edges of the outer dim, and
+# all of these inside a Dataset.  The kernel call is judged against the 50-digit reference as everywhere else; every
+# other representation must give, per time and pixel, the same NaN / finite class and bits, and never +-inf.
+
+REP_DTYPES = [(t, e) for t in DTYPES for e in DTYPES]
+REP_OTHER_M = (1.3, 0.1, 30.0)
+REQUIRED_CLASSES = [*REQUIRED_CLASSES, 'rep_kernel_judged', 'rep_graph', 'rep_graph_public', 'rep_dense_point', 'rep_dense_edges',
+                    'rep_events', 'rep_binned_edges', 'rep_binned_edge_events', 'rep_dense_point_dataset', 'rep_dense_edges_dataset',
+                    'rep_events_dataset', 'rep_binned_edges_dataset', 'rep_binned_edge_events_dataset', 'rep_nan_edge_in_binned_data', 'rep_energy_per_pixel',
+                    'rep_energy_0d']
+RULE = RULE + (
+    ' Representation cases (geometry x energy unit x tof unit x tof dtype x energy dtype x fixed energy {0-d, per pixel}, per-pixel '
+    'other leg): the time alphabet through kernel, graph + transform_coords (module graph and conversion_graph), convert on dense '
+    'point / bin-edge coordinate, binned events, binned with dense outer bin edges (edges and events), each also inside a Dataset.'
+)
+
+
+def _rep_cases(tier):
+    out = []
+    for mode in (ie.DIRECT, ie.INDIRECT):
+        for tdt, edt in REP_DTYPES:
+            for eu in E_UNITS:
+                for tu in T_UNITS:
+                    for energy in ('0d', 'per_pixel'):
+                        out.append({'kind': 'representation', 'mode': mode, 'e_unit': eu, 'tof_unit': tu, 'L1_unit': 'm', 'L2_unit': 'm',
+                                    'tof_dtype': tdt, 'e_dtype': edt, 'energy': energy, 'tier': tier})
+    return out
+
+
+def _rep_check(ctx, rep, got, want, where=''):
+    """got / want: arrays [spectrum, time] (or 1-d lists of per-event values).  Bits of the kernel call, never inf."""
+    rec = ctx.rec
+    site = f'{SITE_CONVERT}/{rep}'
+    got, want = np.asarray(got), np.asarray(want)
+    rec.validated += 1
+    rec.evals += int(got.size)
+    rec.observe(got.tobytes())
+    ok = True
+    if got.shape != want.shape:
+        rec.viol(site, 'representation_shape', f'{where}values of shape {got.shape}, kernel call {want.shape}', representation=rep)
+        return False
+    if np.isinf(got).any():
+        idx = [int(i) for i in np.argwhere(np.isinf(got))[0]]
+        rec.viol(site, 'representation_inf', f'{where}{got[tuple(idx)]!r} at [pixel, time]={idx} for finite inputs; the kernel call gives {want[tuple(idx)]!r}; all: {got.tolist()}', representation=rep)
+        ok = False
+    if not _bit_equal(got, want):
+        bad = np.argwhere(~((got == want) | (np.isnan(got) & np.isnan(want))))
+        idx = [int(i) for i in bad[0]] if len(bad) else []
+        rec.viol(site, 'representation_differs', f'{where}{len(bad)} of {got.size} values differ from the kernel call (dtype {got.dtype} vs {want.dtype}); first at [pixel, time]={idx}: {got[tuple(idx)]!r} vs {want[tuple(idx)]!r}' if idx else f'{where}dtype {got.dtype} vs kernel {want.dtype}', representation=rep)
+        ok = False
+    if ok:
+        rec.cls('rep_' + rep)
+    return ok
+
+
+def _run_representation(case, rec):
+    modstate.reset(K)
+    ctx = Ctx(case, rec, kind_prefix='representation_')
+    direct = ctx.mode == ie.DIRECT
+    per_pixel_energy = case['energy'] == 'per_pixel'
+    Es = [_cast(float(hp.F(e) * hp.MEV / ctx.efac), ctx.edt) for e in E_MEV['quick']]
+    Lf = float(hp.F(30.0 if direct else 1.3))
+    others = [float(x) for x in REP_OTHER_M]
+    nspec = len(others)
+    Espec = [Es[k % len(Es)] for k in range(nspec)] if per_pixel_energy else [Es[0]] * nspec
+    geo = [((Lf, Lo) if direct else (Lo, Lf)) for Lo in others]
+    # ---- the time alphabet --------------------------------------------------------------------------
+    times, truths = [], {}
+    for Eo in Es:
+        Ei, Ef = (Espec[0], Eo) if direct else (Eo, Espec[0])
+        t = ctx.tof_float(ctx.leg_time(geo[0][0], ctx.l1u, Ei) + ctx.leg_time(geo[0][1], ctx.l2u, Ef))
+        times.append(t)
+        truths.setdefault(t, Eo)
+    for s in range(nspec):
+        t0 = ctx.t0(geo[s][0], geo[s][1], Espec[s])
+        t0f = ctx.tof_float(t0)
+        times += [ctx.tof_float(t0 * (1 - hp.F(1e-3))), ctx.tof_float(t0 * (1 - hp.F(4 * ctx.band))), _float_steps(t0f, ctx.tdt, -1), t0f,
+                  _float_steps(t0f, ctx.tdt, 1), ctx.tof_float(t0 * (1 + hp.F(4 * ctx.band))), ctx.tof_float(t0 * (1 + hp.F(1e-3)))]
+    times += [0.0, -times[0], ctx.tof_float(ctx.t0(geo[0][0], geo[0][1], Espec[0]) * hp.F(1e-6))]
+    times = list(dict.fromkeys(times))  # the same float once, order kept (unsorted on purpose)
+    n = len(times)
+    tof = _var(times, 'tof', ctx.tu, ctx.tdt)
+    Lo = _var(others, 'spectrum', ctx.l2u if direct else ctx.l1u, 'float64')
+    Lfv = _var(Lf, None, ctx.l1u if direct else ctx.l2u, 'float64')
+    L1, L2 = (Lfv, Lo) if direct else (Lo, Lfv)
+    ename = 'incident_energy' if direct else 'final_energy'
+    E = _var(Espec, 'spectrum', ctx.eu, ctx.edt) if per_pixel_energy else _var(Espec[0], None, ctx.eu, ctx.edt)
+    geom = {'L1': L1, 'L2': L2, ename: E}
+    rec.cls('rep_energy_per_pixel' if per_pixel_energy else 'rep_energy_0d')
+    # ---- (a) kernel call: judged against the reference, then the yardstick for every other representation ------------
+    res = _call(ctx.mode, tof, L1, L2, E)
+    rec.transitions += 1
+    ctx.check_meta(ctx.site, res, 'representation/kernel')
+    if dict(res.sizes) != {'spectrum': nspec, 'tof': n}:
+        rec.viol(ctx.site, 'representation_shape', f'kernel result sizes {dict(res.sizes)}')
+        return
+    want = res.transpose(['spectrum', 'tof']).values
+    for s in range(nspec):
+        for j, t in enumerate(times):
+            ctx.judge(ctx.site, t, geo[s][0], geo[s][1], Espec[s], float(want[s, j]), E_other_true=truths.get(t) if s == 0 else None, where='representation/kernel')
+    rec.cls('rep_kernel_judged')
+    rec.nontrivial += 1
+    rec.states += 1
+    has_nan = bool(np.isnan(want).any())
+
+    def coord_of(out, name='energy_transfer'):
+        c = out.coords[name]
+        if set(c.dims) != {'spectrum', name}:
+            return np.zeros(0)
+        return c.transpose(['spectrum', name]).values
+
+    def both(rep, da, extract, item):
+        """convert() on the data array and on a Dataset holding it."""
+        for suffix, obj in (('', da), ('_dataset', sc.Dataset({item: da}))):
+            out = scn.convert(obj, origin='tof', target='energy_transfer', scatter=True)
+            rec.transitions += 1
+            rec.states += 1
+            if suffix:
+                out = out[item]
+            for sub_rep, got in extract(out):
+                _rep_check(ctx, sub_rep + suffix, got, want)
+
+    # ---- (b) the graphs through transform_coords ----------------------------------------------------------
+    dense_pt = sc.DataArray(sc.ones(dims=['spectrum', 'tof'], shape=[nspec, n], unit='counts'), coords={'tof': tof, **geom})
+    g1 = G.direct_inelastic('tof') if direct else G.indirect_inelastic('tof')
+    g2 = scn.conversion_graph('tof', 'energy_transfer', scatter=True, energy_mode='direct_inelastic' if direct else 'indirect_inelastic')
+    for rep, g in (('graph', g1), ('graph_public', g2)):
+        out = dense_pt.transform_coords('energy_transfer', graph=g)
+        rec.transitions += 1
+        rec.states += 1
+        _rep_check(ctx, rep, coord_of(out), want)
+    # ---- (c), (d) dense data: point and bin-edge coordinate ---------------------------------------------------
+    both('dense_point', dense_pt, lambda out: [('dense_point', coord_of(out))], 'counts')
+    dense_ed = sc.DataArray(sc.ones(dims=['spectrum', 'tof'], shape=[nspec, n - 1], unit='counts'), coords={'tof': tof, **geom})
+    both('dense_edges', dense_ed, lambda out: [('dense_edges', coord_of(out))], 'counts')
+    # ---- (e) binned data, the events carry the times ---------------------------------------------------------
+    ev_tof = sc.array(dims=['event'], values=np.tile(np.asarray(times, dtype=NP[ctx.tdt]), nspec), unit=ctx.tu, dtype=ctx.tdt)
+    events = sc.DataArray(sc.ones(dims=['event'], shape=[nspec * n], unit='counts'), coords={'tof': ev_tof})
+
+    def per_bin(out, dims):
+        con = out.bins.constituents
+        b = con['begin'].transpose(dims).values.ravel()
+        e = con['end'].transpose(dims).values.ravel()
+        v = con['data'].coords['energy_transfer'].values
+        return [v[int(i):int(k)] for i, k in zip(b, e, strict=True)]
+
+    binned = sc.DataArray(
+        sc.bins(data=events, dim='event', begin=sc.array(dims=['spectrum'], values=[s * n for s in range(nspec)], unit=None, dtype='int64'),
+                end=sc.array(dims=['spectrum'], values=[(s + 1) * n for s in range(nspec)], unit=None, dtype='int64')),
+        coords=dict(geom))
+    both('events', binned, lambda out: [('events', np.stack(per_bin(out, ['spectrum'])) if all(len(x) == n for x in per_bin(out, ['spectrum'])) else np.zeros(0))], 'events')
+    # ---- (f) binned data with the times as dense bin edges of the outer dim; bin j holds event j, the last bin two ---------
+    begin = np.array([[s * n + j for j in range(n - 1)] for s in range(nspec)], dtype=np.int64)
+    end = begin + 1
+    end[:, -1] += 1
+    binned_ed = sc.DataArray(
+        sc.bins(data=events, dim='event', begin=sc.array(dims=['spectrum', 'tof'], values=begin, unit=None, dtype='int64'),
+                end=sc.array(dims=['spectrum', 'tof'], values=end, unit=None, dtype='int64')),
+        coords={'tof': tof, **geom})
+
+    def extract_f(out):
+        tdim = 'energy_transfer' if 'energy_transfer' in out.dims else 'tof'
+        bins = per_bin(out, ['spectrum', tdim])
+        flat = np.concatenate(bins) if bins else np.zeros(0)
+        ev = flat.reshape(nspec, n) if flat.size == nspec * n else np.zeros(0)
+        return [('binned_edges', coord_of(out)), ('binned_edge_events', ev)]
+
+    both('binned_edges', binned_ed, extract_f, 'events')
+    if has_nan:
+        rec.cls('rep_nan_edge_in_binned_data')
+    modstate.reset(K)
+
+
+# ---------------------------------------------------------------------------------------
 # layout / reuse exploration shared by the kernel properties (props/layouts.py): every combination of operand layouts
 # (0-d, 1-d over either of two dims, 2-d, 2-d transposed) must equal the element-wise 0-d calls, also after every operand
 # has been overwritten in place and the kernel is called again.
@@ -627,7 +805,7 @@ REQUIRED_CLASSES = [*REQUIRED_CLASSES, 'layout_ok', 'reuse_after_inplace_update_
 
 
 def cases(tier):
-    return _cases_main(tier) + _history_cases(tier) + _layouts.cases_for(_LAYOUT_SITES, variants=(0, 1, 2, 3, 4) if tier == 'thorough' else (0, 1, 3))
+    return _cases_main(tier) + _history_cases(tier) + _rep_cases(tier) + _layouts.cases_for(_LAYOUT_SITES, variants=(0, 1, 2, 3, 4) if tier == 'thorough' else (0, 1, 3))
 
 
 def run_case(case, rec):
@@ -636,5 +814,7 @@ def run_case(case, rec):
         _layouts.run_layout_case(case, rec)
     elif case.get('kind') == 'history':
         _run_history(case, rec)
+    elif case.get('kind') == 'representation':
+        _run_representation(case, rec)
     else:
         _run_case_main(case, rec)
